@@ -30,6 +30,9 @@ HeaderOK(hd, hv) ==
      [] hd \in {"intReq", "intOpt"} -> hv = "5"                       \* "abc" and "1,2" are not integers
      [] hd = "arrOpt" -> hv \in {"5", "1,2"}                          \* array of integers, simple style
      [] hd = "arrMax1" -> hv = "5"                                    \* ... with maxItems 1
+     \* an object header {a: integer (required), b: integer <= 5}, simple style: exploded "a=1,b=2", not exploded "a,1,b,2"
+     [] hd = "objExp" -> hv = "a=1,b=2"
+     [] hd = "objNoExp" -> hv = "a,1,b,2"
      [] hd = "contentReq" -> TRUE                                     \* defined by `content`: only presence is checkable
      [] hd = "contentOpt" -> TRUE
 
